@@ -628,3 +628,27 @@ func TestRegressConsecutiveLeftovers(t *testing.T) {
 		t.Fatalf("%v", err)
 	}
 }
+
+// TestRegressLabelMoveCrash pins: moving or re-setting an existing label, interrupted at every one of its
+// store writes (landed or not), never loses the label: it resolves to the old or to the new bundle
+func TestRegressLabelMoveCrash(t *testing.T) {
+	file := func(p string, seed uint64) hx.TreeSpec {
+		return hx.TreeSpec{Leaf: 4096, Files: []hx.FileSpec{{Path: p, Content: hx.ContentSpec{Leaf: 4096, Size: 10, Seed: seed}}}}
+	}
+	ops := []opT{
+		{Kind: "upload", Tree: file("a", 1), EPF: 1000, IDSec: 10},
+		{Kind: "upload", Tree: file("b", 2), EPF: 1000, IDSec: 20},
+		{Kind: "label", Label: "l1", Target: 0},
+		{Kind: "label", Label: "l2", Target: 0},
+		{Kind: "label", Label: "l1", Target: 1, Crash: &crashT{Sel: 0, Land: true}},  // move, every crash point enumerated
+		{Kind: "label", Label: "l2", Target: 0, Crash: &crashT{Sel: 1, Land: false}}, // re-set to the same bundle
+	}
+	sigs, err := runHistory(ops, true)
+	if err != nil {
+		t.Fatalf("%v", err)
+	}
+	for _, s := range sigs {
+		s := s
+		stats.Case("pinned label move "+s, true, func() interface{} { return s })
+	}
+}
